@@ -1,8 +1,10 @@
 """C09 — every sub-file view is confined to its window and obeys basic file semantics."""
 import copy
 
-from common import sexp
-from filestack import well_formed
+from common import exc_name, sexp
+from filestack import LogBytesIO, run_real, well_formed
+from framework import CaseResult
+from reffile import RefFile
 from stackcheck import StackCheck, gen_ops
 
 
@@ -36,7 +38,8 @@ class C09(StackCheck):
     prop = 'C09'
     rule = ('random view stacks (SubsectionIO / SplitFileMerger / CloseWrapper / reader open file, nested up to 3 '
             'deep over BytesIO, windows incl. empty, ending at EOF and reaching past EOF) x op lists of 1-12 '
-            'seek/read/write/tell with integer arguments from -len-3 .. len+6 and whence 0-3; a case is '
+            'seek/read/write/tell with integer arguments from -len-3 .. len+6 and whence 0-3; a quarter of the cases: 2-4 views on '
+            'ONE base object (windows on the base and windows on windows) used alternately, the base object itself moved in between; a case is '
             'non-trivial when at least one op returned data, stored bytes or raised; distinct = hash(case, outputs)')
     trusted_base = [
         'Lean 4.33 kernel; axioms propext, Classical.choice, Quot.sound only (audited by #print axioms each run)',
@@ -52,9 +55,109 @@ class C09(StackCheck):
         return 800 if tier == 'quick' else 6000
 
     def gen(self, rng, tier, i):
+        if rng.chance(0.25):
+            return self.gen_shared(rng)
         node = gen_node(rng)
         _, ln = well_formed(node)
         return {'node': node, 'ops': gen_ops(rng, ln)}
+
+    # ---- several views onto ONE base object, used alternately by one thread (windows on the base, windows on windows, and the base
+    # object itself moved by its owner in between): each call must behave as if its view were the only one
+    def gen_shared(self, rng):
+        base = rng.rbytes(rng.pick([8, 20, 33, 64]))
+        views, lens = [], []
+        for k in range(rng.randint(2, 4)):
+            parent = rng.pick([-1] + list(range(len(views))))
+            ln = len(base) if parent < 0 else lens[parent]
+            off = rng.randint(0, ln)
+            size = rng.pick([ln - off, rng.randint(0, ln - off)])
+            views.append([parent, off, size])
+            lens.append(size)
+        ops = []
+        for _ in range(rng.randint(4, 14)):
+            k = rng.randrange(-1, len(views))
+            if k < 0:
+                ops.append([-1, ['sr', rng.randint(0, len(base)), rng.randint(0, 6)]])
+            elif any(v[0] == k for v in views):
+                # a view that other views are windows of is THEIR base object: its position is theirs to move, so its owner uses it
+                # the way the base is used - an absolute seek followed by a read
+                ops.append([k, ['sr', rng.randint(0, lens[k]), rng.randint(0, 6)]])
+            else:
+                ops.append([k, gen_ops(rng, lens[k])[0]])
+        return {'base': base, 'views': views, 'ops': ops}
+
+    def run_case(self, case, drv):
+        if 'views' not in case:
+            return super().run_case(case, drv)
+        from pyctr.fileio import SubsectionIO
+        basef = LogBytesIO(case['base'])
+        objs, lo, size, nodes = [], [], [], []
+        ref = bytearray(case['base'])
+        for parent, off, sz in case['views']:
+            objs.append(SubsectionIO(basef if parent < 0 else objs[parent], off, sz))
+            lo.append(off if parent < 0 else lo[parent] + off)
+            size.append(sz)
+        pos = [0] * len(objs)
+
+        def node_of(k, content):
+            parent, off, sz = case['views'][k]
+            return ('sub', off, sz, ('bio', content) if parent < 0 else node_of(parent, content))
+        outs, models, mon = [], [], []
+        for k, op in case['ops']:
+            op = tuple(op)
+            if k < 0:
+                basef.seek(op[1])
+                got = basef.read(op[2])
+                outs.append('b:' + (got.hex() or '-'))
+                models.append('b:' + (bytes(ref[op[1]:op[1] + op[2]]).hex() or '-'))
+                continue
+            if op[0] == 'q' or (op[0] == 's' and op[2] not in (0, 1, 2)):
+                continue
+            if op[0] == 'sr':
+                objs[k].seek(op[1])
+                got = objs[k].read(op[2])
+                outs.append('b:' + (got.hex() or '-'))
+                w = bytes(ref[lo[k]:lo[k] + size[k]])
+                models.append('b:' + (w[op[1]:op[1] + op[2]].hex() or '-'))
+                if outs[-1] != models[-1] and not mon:
+                    mon.append(f'view {k} {case["views"][k]}: seek({op[1]}); read({op[2]}) returned {outs[-1]} instead of {models[-1]}')
+                continue
+            before = bytes(ref)
+            out = run_real(objs[k], [op])[0]
+            outs.append(out)
+            r = RefFile(ref[lo[k]:lo[k] + size[k]], True, pos=pos[k], clamp=True)
+            try:
+                exp = {'r': lambda: 'b:' + (r.read(op[1]).hex() or '-'), 'w': lambda: 'n:%d' % r.write(op[1]),
+                       's': lambda: 'n:%d' % r.seek(op[1], op[2]), 't': lambda: 'n:%d' % r.pos}[op[0]]()
+            except ValueError:
+                exp = 'e:ValueError'
+            m = drv.ask(('fileops', node_of(k, before), (('s', pos[k], 1), op))).split(' | ')[0].split(' ')
+            models.append(m[1] if len(m) > 1 else 'none')
+            pos[k] = r.pos
+            ref[lo[k]:lo[k] + size[k]] = r.content
+            if out != exp and not mon:
+                mon.append(f'view {k} {case["views"][k]} {op}: got {out}, a view used alone gives {exp} (other views / the owner of the '
+                           f'base were active in between)')
+            if basef.getvalue() != bytes(ref) and not mon:
+                mon.append(f'view {k} {op}: the base file differs from the writes laid over it (a byte outside the window changed, or '
+                           f'data went to the wrong place)')
+        real = ' '.join(outs) + ' | ' + basef.getvalue().hex()
+        model = ' '.join(models) + ' | ' + bytes(ref).hex()
+        return CaseResult(real, model, mon, sig=real, key=None, info={'stack:shared-base x%d' % len(objs): 1})
+
+    def shrink(self, case):
+        if 'views' not in case:
+            yield from super().shrink(case)
+            return
+        for i in range(len(case['ops'])):
+            yield dict(case, ops=case['ops'][:i] + case['ops'][i + 1:])
+
+    def neighbours(self, case, rng):
+        if 'views' not in case:
+            yield from super().neighbours(case, rng)
+            return
+        for _ in range(200):
+            yield self.gen_shared(rng)
 
     def exhaustive(self, tier):
         # all windows of a 6-byte base x all op pairs from a small alphabet
